@@ -4,6 +4,7 @@ import KVerif.Drv.C04
 import KVerif.Drv.C13
 import KVerif.Drv.C19
 import KVerif.Drv.C05
+import KVerif.Drv.C17
 import KVerif.Drv.Kan
 import KVerif.Drv.C02
 import KVerif.Drv.C14
@@ -28,6 +29,8 @@ def dispatch (prop : String) : Option (String → String × String) :=
   | "C19" => some C19.run
   | "C05" => some C05.run
   | "C05o" => some C05.runOracle
+  | "C17" => some C17.run
+  | "C17o" => some C17.runOracle
   | "KALL" => some (Kan.run "KAN")
   | "C02" => some C02.run
   | "C14" => some C14.run
